@@ -60,6 +60,7 @@ def run(ctx):
     rule_use(ctx, F)
     rule_port(ctx, F)
     rule_inc(ctx, F)
+    rule_fromts(ctx, F)
 
 
 # ---------------------------------------------------------------------------
@@ -672,3 +673,27 @@ def _brief(s):
     if isinstance(s, frozenset):
         return "{..}"
     return str(s)
+
+
+def rule_fromts(ctx, F):
+    """Serial numbers made from a point in time are that time's seconds *modulo 2^32* -- a plain truncating cast --
+    so that adding d to the time adds d to the serial, before and after the epoch and across every wrap.  (An absolute
+    value, a clamp or a checked conversion all break `from(t + d) == from(t) + d`.)"""
+    R = "C17.fromts"
+    ctx.floor(R, 1)
+    b = F.one_body(r"^<base::serial::Serial as core::convert::From<jiff::(timestamp::)?Timestamp>>::from$")
+    if not ctx.anchor(R, "<Serial as From<jiff::Timestamp>>::from", b):
+        return
+    n = 0
+    for bi in b.reachable_blocks():
+        for st in b.blocks[bi]["s"]:
+            if st[0] == "=" and st[2][0] == "agg" and st[2][1][0] == "adt" and st[2][1][1].endswith("serial::Serial"):
+                n += 1
+                tm = b.term_of_operand(st[2][2][0])
+                ok = tm[0] == "cast" and tm[1] == "IntToInt" and tm[3] == "u32" and tm[2][0] == "call" and \
+                    (tm[2][1] or "").endswith("Timestamp::as_second") and tm[2][3] == [("arg", 1)]
+                ctx.ob(R, b, "Serial::from(Timestamp) is as_second() reduced modulo 2^32", ok,
+                       "<Serial as From<jiff::Timestamp>>::from builds the serial from %s instead of `value.as_second() as u32`: "
+                       "the map from time to serial is no longer a homomorphism (a later time can get a smaller serial)" % show(tm)[:100],
+                       b.where(bi))
+    ctx.anchor(R, "Serial(..) in From<Timestamp>", n >= 1, b.where())
